@@ -647,7 +647,10 @@ class Exec(CallsMixin):
             it = self.eval(node.iter, st)
         # concrete unrolling
         items = None
-        if isinstance(it, Tup):
+        if isinstance(node.iter, (ast.List, ast.Tuple)) and node.iter.elts and all(isinstance(e_, ast.Constant) for e_ in node.iter.elts):
+            from .sym import const_to_val
+            items = [const_to_val(e_.value) for e_ in node.iter.elts]  # literal list of constants: unrolled
+        elif isinstance(it, Tup):
             items = it.items
         elif isinstance(it, PyConst) and isinstance(it.obj, (list, tuple, dict, set, frozenset)):
             items = [self.pyconst_val(x) for x in (sorted(it.obj) if isinstance(it.obj, (set, frozenset)) else it.obj)]
